@@ -78,3 +78,9 @@ def run(chk):
                    node=fr.fdef, abstract=str(r))
     bounds(chk, fl, f"{nnm.CLS}.sjm", {"N": CONST, "t": CONST, "x": X}, "C11.R2")
     bounds(chk, fl, "welford_mean_var", {"x": X}, "C11.R2")
+
+    # R5: values in [0,1] presuppose that the formulas are evaluated in floating point and that the in-place conventions are keyed
+    # to the null mean, not to the statistic itself (C12.R6 dtype lint; C01.R5 override classification)
+    from . import c12, c01
+    chk.borrow(c12.r6_dtype, {"C12.R6": "C11.R5"})
+    chk.borrow(c01.run, {"C01.R5": "C11.R5"})
